@@ -777,6 +777,19 @@ std::string out_bytes(const Stmt& s) {
 
 // ---------------------------------------------------------------------------------------------------------------------
 // interpreter A: the C++ interface
+// model update for a clear() of the mock of scope `scope` (interpreter A)
+void model_clear(Ctx* c, int scope) {
+    if (scope == 0) {
+        for (int sc = 0; sc < 3; sc++) c->hasLive[sc] = false;
+        if (c->staticValid && !c->staticIgnored) c->staticValid = false;
+        for (int sc = 1; sc < 3; sc++) { c->exists[sc] = false; c->inst[sc] = false; }
+        c->captured = false;
+    } else {
+        c->hasLive[scope] = false;
+        if (c->staticValid && !c->staticIgnored && c->staticScope == scope) c->staticValid = false;
+    }
+}
+
 void run_cpp_range(Ctx* c, size_t from, size_t to) {
     const std::vector<Stmt>& prog = *c->prog;
     for (size_t k = from; k < to; k++) {
@@ -999,19 +1012,23 @@ void run_cpp_range(Ctx* c, size_t from, size_t to) {
         case OP_DISABLE: m.disable(); break;
         case OP_ENABLE: m.enable(); break;
         case OP_IGNORE_OTHER: m.ignoreOtherCalls(); break;
-        case OP_CHECK: m.checkExpectations(); break;
+        case OP_CHECK: {
+            // In a test that has ALREADY failed (teardown after a failed body) a failing checkExpectations is not reported and does not
+            // terminate, but MockSupport::failTest still clears the mock, deleting its actual calls and scopes.  Whether that happened is
+            // observed exactly with a sentinel in the C++ mock's data store (never read by the scenario, wiped only by clear), and the model
+            // of what the C static points to (exclusion of finding C19:support-getter-reads-static-actual-call) is then updated as for clear().
+            bool failedAlready = UtestShell::getCurrent()->hasFailed();
+            if (failedAlready) m.setData("c19-sentinel", true);
+            m.checkExpectations();
+            if (failedAlready) {
+                if (!m.hasData("c19-sentinel")) { verif::cls("teardown.failing-check-cleared-the-mock"); model_clear(c, s.scope); }
+                else verif::cls("teardown.check-after-failure-left-the-mock-alone");
+            }
+            break; }
         case OP_LEFT: rec(c, k, sfmt("#%zu left=%d", k, m.expectedCallsLeft() ? 1 : 0)); break;
         case OP_CLEAR:
             m.clear();
-            if (s.scope == 0) {
-                for (int sc = 0; sc < 3; sc++) c->hasLive[sc] = false;
-                if (c->staticValid && !c->staticIgnored) c->staticValid = false;
-                for (int sc = 1; sc < 3; sc++) { c->exists[sc] = false; c->inst[sc] = false; }
-                c->captured = false;
-            } else {
-                c->hasLive[s.scope] = false;
-                if (c->staticValid && !c->staticIgnored && c->staticScope == s.scope) c->staticValid = false;
-            }
+            model_clear(c, s.scope);
             break;
         case OP_INST_CMP:
             m.installComparator(s.name, *g_cmp[s.fset]);
